@@ -62,3 +62,17 @@ Example C20_nonvacuous :
          {| f_start := 12; f_len := 10; f_addr := 4108; f_nul := false |};
          {| f_start := 26; f_len := 6; f_addr := 4122; f_nul := false |} ].
 Proof. vm_compute. reflexivity. Qed.
+
+(* ---- leaf functions regenerated from the source on every run (tools/gen_leaf.py -> gen/Leaf.v): agreement with the hand-written model ---- *)
+(* src/strings.rs is_printable_ascii, regenerated from the source on every run, is the model's byte test for every u8 and
+   cannot panic (the shift count is below 32 on the branch that shifts) *)
+From PV.Model Require Strings.
+From PV.gen Require Leaf.
+From PV.Proofs Require LeafStrings.
+Theorem C20_leaf_is_printable_ascii : forall b, Leaf.L_strings_is_printable_ascii_dom b = true ->
+  Leaf.L_strings_is_printable_ascii_ok b = true /\ Leaf.L_strings_is_printable_ascii b = Strings.is_printable b.
+Proof. exact LeafStrings.is_printable_ascii_agrees. Qed.
+Print Assumptions C20_leaf_is_printable_ascii.
+Theorem C20_leaf_is_printable_ascii_domain : forall b, Leaf.L_strings_is_printable_ascii_dom b = true <-> b < 256.
+Proof. exact LeafStrings.is_printable_ascii_dom. Qed.
+Print Assumptions C20_leaf_is_printable_ascii_domain.
